@@ -1,5 +1,5 @@
 (* Entry points of the codec model for the correspondence check. *)
-From FF Require Import model.Bytes model.Show model.Msgp model.Forward model.Render model.Spec.
+From FF Require Import model.Bytes model.Show model.Msgp model.Forward model.Render model.Spec model.ChunkId.
 From Coq Require Import String.
 Open Scope N_scope.
 
@@ -201,6 +201,7 @@ Definition run_codec (e : bytes) (args : list bytes) : option bytes :=
       if is e "dec_eventtime" then
         Some (show_res (fun t => show_Z (fst t) ++ str "." ++ show_N (snd t)) (dec_eventtime (unhex a)))
       else if is e "get_chunk" then Some (show_bytes_res (get_chunk (unhex a)))
+      else if is e "chunk_id" then Some (make_chunk_id (fun _ => unhex a) 0)
       else if is e "unmarshal_packed" then Some (show_res show_entries (unmarshal_packed (unhex a)))
       else if is e "marshal_packed" then Some (show_bytes_res (marshal_packed (desc_entries a)))
       else if is e "M_entry_list" then Some (show_bytes_res (M_entry_list (desc_entries a)))
